@@ -459,6 +459,32 @@ def uses_mutable_default_helper_must_stay(a):
     n2 = _helper_mutable_default(a)
     return n2 - n1
 
+def live_ranges(xs, ys):
+    out = []
+    for x in xs:
+        t = x * 2
+        out.append(t)
+        out.append(t + 1)
+    for y in ys:
+        t = y + 1
+        out.append(t)
+        out.append(t * t)
+    return out
+
+def live_range_loop_carried_must_stay(xs):
+    t = 0
+    out = []
+    for x in xs:
+        out.append(t)
+        t = x
+    return out, t
+
+def live_range_conditional_must_stay(a):
+    t = 1
+    if a:
+        t = 2
+    return t
+
 class Box:
     def __init__(self, v):
         self.v = v
@@ -515,6 +541,7 @@ ARGS = {
     "counting_while_else_adjacent": [([1, 2, 3], 2), ([1, 2, 3], 9), ([], 1)], "counting_while_with_continue_must_stay": [([1, -2, 3],)],
     "uses_helper_defaults": [(2, [5, 6])], "generator_consumer_with_break_must_stay": [([1, 2, 3], 2), ([1, 2, 3], 9)], "nested_collecting": [([[1, 2], [3]],)],
     "uses_cached_helper_must_stay": [(3,), (4,)],
+    "live_ranges": [([1, 2], [5])], "live_range_loop_carried_must_stay": [([1, 2, 3],)], "live_range_conditional_must_stay": [(0,), (1,)],
     "read_before_try_must_stay": [([1, 2], 0), ([1, 2], 5)], "field_read_before_try_must_stay": [(_P(1),)], "uses_mutable_default_helper_must_stay": [(1,)],
     "record_scalar_replacement": [(1, 2)], "record_escapes_must_stay": [(1, 2)], "uses_rebinding_helper": [("low", {"low": 0.1}), (0.5, {}), (2.0, {})],
     "format_call": [(1, "z")], "format_call_with_spec_must_stay": [(7,)], "polarity_two_branches": [(None,), (0,), (3,)],
